@@ -206,6 +206,25 @@ def run(ctx):
             ok = all(not any(re.search(r"\.1\)?=|from_meta\(", a_) and "from_path(" not in a_ for a_ in d) for d in ctx.pc_strs(f, seen_ins[0][0]))
         ctx.ob("C02.P.map-key-remembered", f.key, "seen-set separate from the result map, updated on every path", ok,
                "a repeated key must be reported even when its earlier occurrence had a rejected value: the key has to be recorded in a seen-set on every path, not only when the value was inserted")
+    # the flatten hand-off re-visits every error of the bundle it gets back: none is filtered away
+    g = ctx.fn("darling_core::error::Error::add_sibling_alts_for_unknown_field")
+    if g:
+        rec = ctx.per_element(g, r"^darling_core::error::Error::add_sibling_alts_for_unknown_field$")
+        ok = len(rec) == 1 and rec[0]["form"] in ("adapter", "loop")
+        detail = "%s" % [(h["form"], h["source"][:100]) for h in rec]
+        if ok and rec[0]["form"] == "adapter":
+            # the adapter chain from the bundle's vector to the rebuilt one only maps
+            chains = [re.findall(r"Iterator(?:>)?::(\w+)\(", ctx.expr(g, t_["args"][0])) + [mir.callee_of(t_).rsplit("::", 1)[-1]] for _, t_ in ctx.find_calls(g, r"Iterator(>)?::collect$")]
+            flat = [x for c in chains for x in c]
+            ok = bool(chains) and not (set(flat) - {"map", "collect", "into_iter", "iter", "cloned", "by_ref"})
+            detail += "; adapter chain %s" % flat
+        elif ok:
+            # loop form: the recursive call stands unconditionally in the loop body
+            pcs = ctx.pc_strs(rec[0]["owner"], rec[0]["blk"])
+            loop_only = all(all("Iterator>::next(" in a_ or a_.startswith("discr(self.kind)=") or a_.startswith("len(self.locations)") for a_ in d) for d in pcs)
+            ok = loop_only
+            detail += "; loop conditions %s" % [sorted(d) for d in pcs]
+        ctx.ob("C02.G.sibling-alts-keeps-every-error", g.key, "every child of the bundle is re-visited and kept", ok, detail)
     # every leaf carries its outer-to-inner location path: construction and hand-down of paths (shared with C04)
     from .C04 import location_rules
     location_rules(ctx, "C02.loc")
